@@ -493,8 +493,8 @@ class Tensor:
         return F.slice(self, key)
     
     def __iter__(self):
-        self._current_idx = 0
-        return self
+        # every call returns an independent iterator (simultaneous / nested iterations over one tensor)
+        return (self[i] for i in range(len(self)))
     
     def __next__(self) -> 'Tensor':
         if self._current_idx >= len(self):
